@@ -24,6 +24,26 @@ inductive Syn where
   | more (a : Atom) (isOr : Bool) (rest : Syn)
 end
 
+/-- a target environment: values of the string/version variables, and the set of active extras
+(`none`: the key `extra` is absent from the environment) -/
+structure Env where
+  vars : List (String × String)
+  extras : Option (List String)
+deriving Repr, Inhabited
+
+def Env.get? (E : Env) (k : String) : Option String := (E.vars.find? (fun p => p.1 == k)).map (·.2)
+
+/-- PEP 503 name normalisation (`packaging.utils.canonicalize_name`): lower-case, runs of `-`, `_`,
+`.` become one `-` -/
+def canonName (s : String) : String :=
+  let rec go (cs : List Char) (inRun : Bool) : List Char :=
+    match cs with
+    | [] => []
+    | c :: r =>
+      if c == '-' || c == '_' || c == '.' then (if inRun then go r true else '-' :: go r true)
+      else lowerChar c :: go r false
+  String.ofList (go s.toList false)
+
 /-- `%ignore WS_INLINE` : `(" "|/\t/)+` -/
 def skipWs : List Char → List Char
   | ' ' :: cs => skipWs cs
